@@ -29,6 +29,28 @@ STRENGTHENED = {
  "C16-r2m2": "round 2c, first run: missed (pointer-based manager leaves variables of a partly rejected add_named_vars batch without level entries; C16 ran on the index-based manager only). C16 now runs c16_mgr on the `pointer` variant as well; C03 and C20 additionally run c03_hist there and C07 c07_stress.",
  "C20-r2m1": "round 2c, first run: missed (pointer-based manager: add_named_vars no longer clears the apply cache; shows for ZBDDs whose cached result embeds the tautology chain). C06's hostile generator repeated operations across add_vars only; it now picks add_vars or add_named_vars at random, and c06_diff already ran on the pointer variant under C06 and C20.",
  "C20-r2m2": "round 2c, first run: missed (parallel update_levels skips the wrong level when an EMPTY level moves; needs >= 65536 nodes, >= 2 workers and an unused variable). c08_large now has two variables no function depends on, which the reversal rounds move past populated levels, and runs on both node stores under C20.",
+ "C01-r3m2": "round 3, first run: missed (WorkerPool::slice_for_each drops the trailing len % chunk elements; only the parallel level-number update of set_var_order uses it: >= 65536 nodes, >= 2 workers, >= 8*workers moved levels with a remainder). c08_large ran on 4 workers only and its reversals always move an even, divisible number of levels. It now runs on 2/3/4/8 workers, mixes window shuffles, 3-cycles, rotations and reversals of stretches of every length (inside one variable block so that the diagram stays above 65536 nodes, restoring the order when it shrank), counts the reorderings that really took the concurrent path and those that moved an odd number of levels (both required), and is cross-listed under C01 and C03.",
+ "C03-r3m2": "round 3, first run: missed, same blind spot as C01-r3m2 (slice_for_each hands out pairs and drops the last element of an odd-length slice). Closed by the same restructuring of c08_large.",
+ "C03-r3m1": "round 3, first run: caught by C16 only (add_named_vars_from_map takes the adopt-the-map fast path on a manager that already has unnamed variables). C03 now also runs c16_mgr (rel + pointer): num_vars == num_levels, var/level maps inverse, handles intact after every add_vars / add_named_vars / add_named_vars_from_map / rejected call.",
+ "C02-r3m1": "round 3: missed by the checks as they stood when it was delivered (the derived `ite_edge` forwarder of the shipped types swaps then/else; every monitor used the handle-level `ite`). c02_api / c04_api / c09_api (every `*_edge` entry point of the shipped types over all 3-variable functions and 6 orders) were written before its first run.",
+ "C02-r3m2": "round 3: missed by the checks as they stood when it was delivered (trait-default BooleanFunction::ite_edge; all shipped types override it). c02_api adds function types with a derived Function and a hand-written BooleanFunction containing only the required methods, so every default (ite, not_var, cofactors, not_owned, satisfiable, valid, pick_cube_uniform, handle-level forms) runs against the model.",
+ "C04-r3m1": "round 3: missed by the checks as they stood when it was delivered (derived apply_{forall,exists,unique}_edge forwarders swap the operands). Closed by c04_api (see C02-r3m1).",
+ "C04-r3m2": "round 3, first run: caught by C10 only (MTBDD restrict ignores the literals below a skipped negative literal). C04 now also runs c10_dd (restrict on sparse MTBDDs with negative literals, through restrict and through operations).",
+ "C05-r3m2": "round 3: missed by the checks as they stood when it was delivered (a thread that returns a partly used pre-allocated 64Ki chunk loses its local free list: only stores above 65536 slots). Added c05_probe_large: 66000..150000 slots, allocate-and-free sessions with and without gc inside the session, fill with cubes and one-node functions, live node count measured after a collection under the exclusive lock == capacity.",
+ "C06-r3m1": "round 3, first run: caught by C20 only (pointer-based manager: LevelView::gc() collects outside a prepared collection, the apply cache keeps edges to freed nodes). Histories now call LevelView::gc() on every level (Op::LevelGc), C06's hostile generator has the pattern op / drop result / level gc / new nodes / op, and C06 runs c06_diff on the pointer variant itself.",
+ "C06-r3m2": "round 3: missed by the checks as they stood when it was delivered (a REJECTED add_named_vars has added the names before the duplicate but does not flush the apply cache). Histories now issue rejected batches (Op::AddNamedVarsRejected: fresh names, then a duplicate) and C06's repeat-across-add_vars pattern picks add_vars / add_named_vars / a rejected batch at random.",
+ "C07-r3m1": "round 3, first run: caught (same mechanism as C04-r2m1); C07 now lists c06_subst_ids itself.",
+ "C08-r3m1": "round 3, first run: caught by C12 only (reorder() bumps the epoch that invalidates SatCountCache only if the node count shrank). The C08 cases now keep one model-count cache across both reorderings and count every live function AND the functions of its inner nodes down to depth 3 (the root of a surviving handle keeps its id, a stale entry sits below it).",
+ "C09-r3m1": "round 3, first run: missed (ZBDD eval keeps its bit set in a thread-local and clears it only on the normal return path; a documented panic for an out-of-range variable leaves it dirty). c02_rand now issues rejected eval calls (out-of-range variable, panicking argument iterator), catches the panic and evaluates sparse valuations on the same thread; C09 cross-lists c02_rand.",
+ "C12-r3m2": "round 3, first run: missed (BCDD sat_count cache key puts the complement tag at bit 31: collides with node ids only on the pointer-based manager, where ids are addresses). C12 now runs c12_satcount and c12_cache on the pointer variant.",
+ "C13-r3m1": "round 3, first run: missed (pointer-based manager: gc_count() returns the reorder counter, so a plain gc no longer invalidates SatCountCache). C13 now runs c13_rand / c13_uniform on the pointer variant and c13_uniform has a phase that samples a function, drops it, collects, builds new functions on the recycled ids and samples those with the same cache.",
+ "C14-r3m2": "round 3, first run: missed (off-by-one in the node store's allocation path for threads bound to ANOTHER manager: writes one slot past the array). Added c14_nested: the capacity sweeps of c14_sweep executed inside a with_manager_shared scope of a second manager.",
+ "C15-r3m1": "round 3, first run: missed (binary importer sizes its level table by the file's .nvars instead of the manager's level count). c15_large now also imports every file into a manager with 1..3 additional variables in front, the file's variables mapped onto the last ones.",
+ "C15-r3m2": "round 3, first run: missed (name sanitiser mixes char and byte indices: wrong name or panic for a multi-byte character before a blank / control character). The naming schemes now contain such names.",
+ "C16-r3m1": "round 3, first run: missed (index-based manager: add_named_vars without its scope guard leaves the names consumed before a PANIC of the name iterator without levels). Histories now call add_named_vars with an iterator that panics after k fresh names, catch the panic and check counts and name lookups; C16 runs c03_hist (rel + pointer).",
+ "C17-r3m2": "round 3, first run: missed (Drain::drop returns early when needs_drop::<T>() is false; all C17 monitors used an instance-counting element type, which has drop glue). Added c17_plain: RawTable<u64, _> under random sequences with partially consumed drains.",
+ "C18-r3m1": "round 3, first run: missed (DIMACS: a `c vo` tree after name records does not reset the linear order; var_order option). The semantic round trips now also write the order as a tree with name records before and after it.",
+ "C20-r3m1": "round 3, first run: missed (pointer-based manager variant of C08-r3m1). Closed by the sub-function counts in the C08 cases, which C20 runs on the pointer variant.",
 }
 rows = []
 for d in sorted(glob.glob(f"{ROOT}/seeded/C*-*m*")):
